@@ -19,6 +19,15 @@ def linearise(case, out):
     tx = out["tx_addr"]
     ev = out["events"]
     commits = [e[0] for e in ev if e[2] == "lmdb_commit"]
+    # write-transaction windows (lmdb_begin .. lmdb_commit of one thread): the commit is visible to an unlocked
+    # reader from some instant INSIDE the window (the lmdb_commit event gets its sequence number after the commit
+    # has returned), so an unlocked read that overlaps a window cannot be placed before or after that commit
+    wins, open_at = [], {}
+    for e in ev:
+        if e[2] == "lmdb_begin":
+            open_at[e[1]] = e[0]
+        elif e[2] == "lmdb_commit":
+            wins.append((open_at.pop(e[1], e[0]), e[0]))
     items = []
     hp = out["hp_addr"]
     stats = {"sections": 0, "reads": 0, "heads": 0, "heads_ambiguous": 0, "vtx": 0, "scans": 0, "hdr_at": 0, "hdr_of": 0,
@@ -73,7 +82,7 @@ def linearise(case, out):
                 items.append((acq[0], {"k": "VTx", "t": t, "b": c["b"], "ok": c["ok"]}))
                 stats["vtx"] = stats.get("vtx", 0) + 1
         elif c["k"] == "Head" and "head" in c and c["head"] is not None:
-            if any(c["s0"] < s < c["s1"] for s in commits):
+            if any(c["s0"] < s < c["s1"] for s in commits) or any(b < c["s1"] and cm > c["s0"] for b, cm in wins):
                 stats["heads_ambiguous"] += 1      # a commit landed during the unlocked read: not placed
             else:
                 items.append((c["s0"], {"k": "Head", "t": t, "head": c["head"]}))
